@@ -1,0 +1,10 @@
+//go:build verif
+
+package swap
+
+// Verification hooks for C06/C15 (build tag verif, add-only).
+
+// VerifSetRetries sets the in-memory retry counter of the state machine, so that a
+// harness can reach "retries exhausted" without sitting through the real
+// exponential backoff (up to 20 s per retry).
+func (sm *SwapStateMachine) VerifSetRetries(n int) { sm.retries = n }
